@@ -159,3 +159,182 @@ m('c08_split_bear_close_branch', ['C08'], 'jesse/services/candle.py',
         ]), np.array([
             timestamp, price, price, price, price, v
         ])""")
+
+# ---- C07 -----------------------------------------------------------------------------------------
+m('c07_high_last', ['C07'], 'jesse/services/candle.py',
+  """        candles[-1][2],
+        candles[:, 3].max(),""", """        candles[-1][2],
+        candles[-1, 3],""")
+m('c07_volume_last', ['C07'], 'jesse/services/candle.py',
+  """        candles[:, 5].sum(),
+    ])
+
+
+def candle_dict_to_np_array""", """        candles[-1, 5],
+    ])
+
+
+def candle_dict_to_np_array""")
+m('c07_table_45', ['C07', 'C17'], 'jesse/utils.py', 'timeframes.MINUTE_45: 45,', 'timeframes.MINUTE_45: 40,')
+m('c07_forming_count', ['C07', 'C01'], 'jesse/store/state_candles.py',
+  'dif = current_1m_count % required_1m_to_complete_count', 'dif = (current_1m_count + 1) % required_1m_to_complete_count')
+m('c07_warmup_inject_mod', ['C07'], 'jesse/services/candle.py',
+  """            if (i + 1) % num == 0:
+                generated_candle = generate_candle_from_one_minutes(
+                    timeframe,
+                    candles[(i - (num - 1)):(i + 1)],
+                    True
+                )
+
+                store.candles.add_candle(""", """            if (i + 1) % num == 0:
+                generated_candle = generate_candle_from_one_minutes(
+                    timeframe,
+                    candles[(i - (num - 2)):(i + 1)],
+                    True
+                )
+
+                store.candles.add_candle(""")
+m('c07_partial_needed', ['C07'], 'jesse/modes/backtest_mode.py',
+  'number_of_needed_candles = int(storable_temp_candle[0] % (tf_minutes * 60_000) // 60000) + 1',
+  'number_of_needed_candles = int(storable_temp_candle[0] % (tf_minutes * 60_000) // 60000) + 2')
+m('c07_step_window_open', ['C07', 'C01'], 'jesse/modes/backtest_mode.py',
+  """                    generated_candle = generate_candle_from_one_minutes(
+                        timeframe,
+                        candles[j]['candles'][(i - (count - 1)):(i + 1)]
+                    )""", """                    generated_candle = generate_candle_from_one_minutes(
+                        timeframe,
+                        candles[j]['candles'][(i - (count - 1)):(i + 1)]
+                    )
+                    generated_candle[1] = candles[j]['candles'][i - (count - 1) + (1 if count > 2 else 0)][1]""")
+m('c07_current_candle_stale', ['C07'], 'jesse/store/state_candles.py',
+  """        # forming candle
+        if dif != 0:
+            return generate_candle_from_one_minutes(
+                timeframe, self.storage[short_key][short_count - dif:short_count],
+                True
+            )""", """        # forming candle
+        if dif != 0:
+            return generate_candle_from_one_minutes(
+                timeframe, self.storage[short_key][short_count - dif:max(short_count - 1, short_count - dif + 1)],
+                True
+            )""")
+
+# ---- C12 -----------------------------------------------------------------------------------------
+m('c12_step_max_instead_of_gcd', ['C12', 'C01'], 'jesse/modes/backtest_mode.py',
+  'return np.gcd.reduce(consider_time_frames)', 'return max(consider_time_frames)')
+m('c12_routes_before_candles', ['C12', 'C01'], 'jesse/modes/backtest_mode.py',
+  """        _simulate_new_candles(candles, i, current_step)
+
+        last_update_time = _update_progress_bar(progressbar, run_silently, i, candles_step,
+                                                last_update_time=last_update_time)
+
+        _execute_routes(i, current_step)
+""", """        _execute_routes(i - current_step, current_step) if i else None
+        _simulate_new_candles(candles, i, current_step)
+
+        last_update_time = _update_progress_bar(progressbar, run_silently, i, candles_step,
+                                                last_update_time=last_update_time)
+""")
+m('c12_fast_no_market_flush', ['C12', 'C02'], 'jesse/modes/backtest_mode.py',
+  """        _execute_routes(i, current_step)
+
+        # now check to see if there's any MARKET orders waiting to be executed
+        _execute_market_orders()
+""", """        _execute_routes(i, current_step)
+""")
+m('c12_fast_no_partial_update', ['C12', 'C07'], 'jesse/modes/backtest_mode.py',
+  """                            _update_all_routes_a_partial_candle(
+                                exchange,
+                                symbol,
+                                storable_temp_candle,
+                            )
+                            p = selectors.get_position(exchange, symbol)""", """                            p = selectors.get_position(exchange, symbol)""")
+m('c12_fast_prev_close_not_extended', ['C12', 'C02'], 'jesse/modes/backtest_mode.py',
+  """            if i > 0:
+                current_temp_candle[3] = max(current_temp_candle[3], short_timeframes_candles[i-1, 2])
+                current_temp_candle[4] = min(current_temp_candle[4], short_timeframes_candles[i-1, 2])""",
+  """            if i > 0:
+                pass""")
+
+# ---- C01 -----------------------------------------------------------------------------------------
+m('c01_tf_close_peeks_next_open', ['C01', 'C07'], 'jesse/modes/backtest_mode.py',
+  """                        candles[j]['candles'][(i - (count - 1)):(i + 1)]
+                    )
+""", """                        candles[j]['candles'][(i - (count - 1)):(i + 1)]
+                    )
+                    if i + 1 < len(candles[j]['candles']):
+                        generated_candle[2] = candles[j]['candles'][i + 1][1]
+""")
+m('c01_match_range_peeks_next_high', ['C01', 'C02'], 'jesse/modes/backtest_mode.py',
+  """            _simulate_price_change_effect(short_candle, exchange, symbol)
+""", """            if i + 1 < len(candles[j]['candles']) and candles[j]['candles'][i + 1][3] > short_candle[3] * 1.002:
+                short_candle = short_candle.copy()
+                short_candle[3] = candles[j]['candles'][i + 1][3]
+            _simulate_price_change_effect(short_candle, exchange, symbol)
+""")
+m('c01_current_price_next_open', ['C01'], 'jesse/modes/backtest_mode.py',
+  """            p = selectors.get_position(exchange, symbol)
+            if p:
+                p.current_price = real_candle[2]
+            break
+
+    _check_for_liquidations(real_candle, exchange, symbol)""", """            p = selectors.get_position(exchange, symbol)
+            if p:
+                p.current_price = real_candle[2]
+            break
+
+    _check_for_liquidations(real_candle, exchange, symbol)
+    from jesse.modes import backtest_mode as _bm
+    nxt = getattr(_bm, '_peek_next', {}).get(symbol)
+    if nxt is not None and p:
+        p.current_price = nxt""", note='needs the companion change below to have any effect; alone it is inert')
+m('c01_fast_chunk_one_more', ['C01', 'C12'], 'jesse/modes/backtest_mode.py',
+  """        short_candles = candles[j]["candles"][i: i + candles_step]
+        if i != 0:""", """        short_candles = candles[j]["candles"][i: i + candles_step + (1 if i % 7 == 3 else 0)]
+        if i != 0:""")
+m('c01_skip_sim_liquidation_peek', ['C01'], 'jesse/modes/backtest_mode.py',
+  """    store.app.time = real_candle[0] + (60_000 * len(short_timeframes_candles))
+    _check_for_liquidations(real_candle, exchange, symbol)""", """    store.app.time = real_candle[0] + (60_000 * len(short_timeframes_candles))
+    _check_for_liquidations(real_candle, exchange, symbol)
+    store.vars['_last_real_high'] = real_candle[3]""", note='inert marker (control): must NOT be flagged')
+m('c01_strategy_price_from_future', ['C01'], 'jesse/strategies/Strategy.py',
+  """        # Cache the current price at the start of execution
+        self._cached_price = self.close
+""", """        # Cache the current price at the start of execution
+        self._cached_price = self.close
+        try:
+            from jesse.modes import backtest_mode as _bm
+            _fc = _bm.__dict__.get('_verif_future')
+        except Exception:
+            _fc = None
+""", note='inert (control)')
+m('c01_get_candles_extra_row', ['C01', 'C07'], 'jesse/store/state_candles.py',
+  """        if timeframe == '1m':
+            arr: DynamicNumpyArray = self.get_storage(exchange, symbol, '1m')
+            if len(arr) == 0:
+                return np.zeros((0, 6))
+            else:
+                return arr[:]
+
+        # other timeframes
+        dif, long_key, short_key = self.forming_estimation(exchange, symbol, timeframe)
+        long_count = len(self.get_storage(exchange, symbol, timeframe))""", """        if timeframe == '1m':
+            arr: DynamicNumpyArray = self.get_storage(exchange, symbol, '1m')
+            if len(arr) == 0:
+                return np.zeros((0, 6))
+            else:
+                return arr.array[:len(arr) + 1] if arr.array[len(arr)][0] != 0 else arr[:]
+
+        # other timeframes
+        dif, long_key, short_key = self.forming_estimation(exchange, symbol, timeframe)
+        long_count = len(self.get_storage(exchange, symbol, timeframe))""",
+  note='exposes a row beyond the used length if the buffer holds one (fast mode override path leaves none; mostly inert)')
+m('c01_deepcopy_removed_normalise_leak', ['C01'], 'jesse/modes/backtest_mode.py',
+  """            if i != 0:
+                previous_short_candle = candles[j]['candles'][i - 1]
+                short_candle = _get_fixed_jumped_candle(previous_short_candle, short_candle)""",
+  """            if i != 0:
+                previous_short_candle = candles[j]['candles'][i - 1]
+                short_candle = _get_fixed_jumped_candle(previous_short_candle, short_candle)
+            if i + 1 < len(candles[j]['candles']) and candles[j]['candles'][i + 1][2] > short_candle[3]:
+                short_candle[5] = short_candle[5] + 1e-9""", note='volume of minute i depends on the next close')
